@@ -91,7 +91,7 @@ def commands(long=True, max_parts=5):
     return st.builds(lambda k, t, r, then, cbret: {"kind": k, "text": t, "reply": r, "then": then, "cbret": cbret},
                      st.sampled_from(["plain", "plain", "lines"]),
                      st.sampled_from(CMD_TEXTS), replies(max_parts, long),
-                     st.sampled_from([0, 0, 0, 1, 2]), st.sampled_from([None, None, "len", "false", "obj"]))
+                     st.sampled_from([0, 0, 0, 1, 2]), st.sampled_from([None, None, "len", "false", "obj", "falsy"]))
 
 
 def schedules():
@@ -158,7 +158,7 @@ class _Session(object):
             # public per-line API; the key is free text for the purpose of this check
             key = c["text"].split(" ", 1)[1] if c["text"].startswith("GETINFO ") else None
             if key is not None:
-                d = proto.get_info_incremental(key, got.append)
+                d = proto.get_info_incremental(key, _line_cb(got, "falsy") if c.get("cbret") == "falsy" else got.append)
             else:
                 d = proto.queue_command(c["text"], _line_cb(got, c.get("cbret")))
         self.watches.append(Watch(d))
@@ -191,7 +191,21 @@ class _Session(object):
                 break
 
 
+class _FalsyCollector(list):
+    """a per-line callback that is a falsy OBJECT: a list-subclass collector is empty (falsy) until it has collected
+    something - 'is there a callback' must be answered with `is not None`, not by truthiness"""
+
+    def __init__(self, sink):
+        list.__init__(self)
+        self._sink = sink
+
+    def __call__(self, line):
+        self._sink.append(line)     # stays empty itself, hence stays falsy
+
+
 def _line_cb(got, cbret):
+    if cbret == "falsy":
+        return _FalsyCollector(got)
     if cbret is None:
         return got.append
     if cbret == "len":
